@@ -118,6 +118,18 @@ func c03Script(k c03Case) string {
 			e = "(($a <=> $b) === (($a < $b) ? (-1) : (($a > $b) ? 1 : 0)))"
 		}
 		fmt.Fprintf(&sb, "try { $r = %s; echo \"R|\", ($r ? \"holds\" : \"broken\"), \"\\n\"; } catch (\\Throwable $t) { echo \"R|throw\\n\"; }\n", e)
+	case "site":
+		// the same operator written as a binary expression and as a compound assignment on four kinds of target
+		sb.WriteString("function c03show($v) { return gettype($v) . \":\" . json_encode($v); }\n")
+		one := func(tag, setup, stmt, read string) {
+			fmt.Fprintf(&sb, "try { %s %s echo \"S|%s|\", c03show(%s), \"\\n\"; } catch (\\Throwable $t) { echo \"S|%s|throw\\n\"; }\n", setup, stmt, tag, read, tag)
+		}
+		one("expr", "", fmt.Sprintf("$r = ($a %s $b);", k.Op), "$r")
+		one("var", "$v = $a;", fmt.Sprintf("$v %s= $b;", k.Op), "$v")
+		one("list", "$l = [0, $a];", fmt.Sprintf("$l[1] %s= $b;", k.Op), "$l[1]")
+		one("keyed", "$m = [\"k\" => $a];", fmt.Sprintf("$m[\"k\"] %s= $b;", k.Op), "$m[\"k\"]")
+		one("prop", "$o = new Pt(); $o->x = $a;", fmt.Sprintf("$o->x %s= $b;", k.Op), "$o->x")
+		sb.WriteString("echo \"R|sites\\n\";\n")
 	case "truthy":
 		sb.WriteString(`$c1 = "F"; if ($a) { $c1 = "T"; }
 $c2 = "F"; while ($a) { $c2 = "T"; break; }
@@ -203,6 +215,19 @@ func C03(c *Ctx) *kf.Report {
 				exact++
 				if f[0] != "throw" {
 					rep.Add(kf.Mismatch{ID: id, Expected: "a catchable error", Observed: line, ObsKey: line, Input: jobs[i].Src})
+				}
+			}
+		case "site":
+			laws++
+			got := map[string]string{}
+			for _, l := range strings.Split(r.Out, "\n") {
+				if f := strings.SplitN(l, "|", 3); len(f) == 3 && f[0] == "S" {
+					got[f[1]] = f[2]
+				}
+			}
+			for _, site := range []string{"var", "list", "keyed", "prop"} {
+				if got[site] != got["expr"] {
+					rep.Add(kf.Mismatch{ID: strings.Replace(id, "C03/site/", "C03/site="+site+"/", 1), Expected: map[string]string{"as a binary expression": got["expr"]}, Observed: map[string]string{"as compound assignment on " + site: got[site]}, ObsKey: "site-differs", Input: jobs[i].Src})
 				}
 			}
 		case "law":
